@@ -87,6 +87,18 @@ class ContentFilterTree(tree.Tree):
         """
         return self.backing_tree.is_executable(path)
 
+    def is_versioned(self, path):
+        """Check if a path is versioned in the backing tree."""
+        return self.backing_tree.is_versioned(path)
+
+    def get_symlink_target(self, path):
+        """Get the target of a symlink; filters do not apply to symlinks."""
+        return self.backing_tree.get_symlink_target(path)
+
+    def get_file_mtime(self, path):
+        """Get the modification time of a file from the backing tree."""
+        return self.backing_tree.get_file_mtime(path)
+
     def iter_entries_by_dir(self, specific_files=None, recurse_nested=False):
         """Iterate over entries in the tree by directory.
 
